@@ -24,6 +24,7 @@ import SharkVerif.Lemmas.McSmoAll
 import SharkVerif.Lemmas.McLinear
 import SharkVerif.Lemmas.McOptimality
 import SharkVerif.Lemmas.McPerm
+import SharkVerif.Lemmas.McPsd
 namespace SharkVerif.C16
 open SharkVerif.Mc SharkVerif.Gen.McTables SharkVerif.McTables
 
@@ -299,10 +300,30 @@ theorem perm_examples_equivariant (f : Family) (c n : Nat) (hc : 2 ≤ c) (C : R
   exact perm_examples_equivariant_Q c (f.P c) n hP C _ K labels linMat σ v w
 
 /-- Gram matrices are positive semidefinite (the hypothesis `PSD` above is satisfiable by every kernel matrix of
-explicit features; for `Q = M ⊗ K` PSD-ness follows from `M_is_gram_of_nu` and a PSD `K` — that Kronecker step is
-NOT formalised here and stays a hypothesis of `stopped_state_near_optimal`) -/
+explicit features; for `Q = M ⊗ K` see `generated_Q_psd` below) -/
 theorem gram_is_psd (N T : Nat) (F : Nat → Nat → Rat) : PSD N (fun v w => ∑ t ∈ Finset.range T, F v t * F w t) :=
   psd_of_gram N T F
+
+/-- **Kronecker step, formalised**: for every formulation family and class count, if the kernel matrix is a Gram
+matrix of explicit feature vectors (`K i j = Σ_t φ i t · φ j t`, e.g. the linear and polynomial kernels on the
+training points), then `Q = M ⊗ K` of the constructed problem is positive semidefinite — `M` being the (centred)
+Gram matrix of `ν` by `M_is_gram_of_nu`.  This discharges the `PSD` hypothesis of `stopped_state_near_optimal` /
+`mc_kkt_eps_near_optimal` for the freshly built problem (and `Q` only gets renumbered by the operations). -/
+theorem generated_Q_psd (f : Family) (c n : Nat) (hc : 2 ≤ c) (C : Rat) (T : Nat) (φ : Nat → Nat → Rat)
+    (labels : Nat → Nat) (hl : ∀ i < n, labels i < c) (linMat : Nat → Nat → Rat) :
+    PSD (f.P c * n) (problem f c n C (fun i j => ∑ t ∈ Finset.range T, φ i t * φ j t) labels linMat).Q := by
+  have hP : 0 < f.P c := by cases f <;> simp [Family.P] <;> omega
+  refine (psd_of_centred_gram_kron (f.P c * n) c T (by omega)
+      (fun v k => nuAt (f.nu c) (f.P c) (labels (v / f.P c)) (v % f.P c) k)
+      (fun v t => φ (v / f.P c) t)).congr ?_
+  intro v hv w hw
+  have hvn : v / f.P c < n := Nat.div_lt_of_lt_mul hv
+  have hwn : w / f.P c < n := Nat.div_lt_of_lt_mul hw
+  have h := M_is_centred_gram_all f c hc (labels (v / f.P c)) (v % f.P c) (labels (w / f.P c)) (w % f.P c)
+    (hl _ hvn) (Nat.mod_lt _ hP) (hl _ hwn) (Nat.mod_lt _ hP)
+  unfold mAt Sparse.get gramCentered gram nuSum at h
+  simp only [problem, McBox.Q, McBox.init, McBox.Mget]
+  rw [Nat.mul_comm (f.P c) (labels (v / f.P c)), h]
 
 /-- non-vacuity of the hypotheses of `mc_kkt_eps_near_optimal`: one variable, `Q = 1`, `lin = 1`, `C = 2`:
 `a = 1` is exactly optimal (gradient 0) -/
